@@ -90,7 +90,7 @@ M("xmap-scale-on-restore-too", ["C01"], "gaddlemaps/_exchage_map.py",
   "        return center + np.dot(proyection, vectores)", "        return center + np.dot(proyection, vectores) * (1.0 if self.scale_factor == 1 else 0.999)")
 M("xmap-frame-neighbours-highest", ["C03"], "gaddlemaps/components/_components_top.py",
   "        return sorted(self.bonds)[:natoms]", "        return sorted(self.bonds)[-natoms:] if natoms else []")
-M("xmap-restore-transposed", ["C01", "C03"], "gaddlemaps/_exchage_map.py",
+M("xmap-restore-transposed", ["C01", "C02"], "gaddlemaps/_exchage_map.py",
   "        return center + np.dot(proyection, vectores)", "        return center + np.dot(vectores, proyection)")
 M("xmap-two-atom-axis-random", ["C02"], "gaddlemaps/_exchage_map.py",
   "            positions = np.array([pos[0], *rand_pos, *pos[1:]])", "            positions = np.append(pos, rand_pos, axis=0)")
